@@ -335,6 +335,7 @@ fn st(k: Kind) -> StateType {
 pub fn c19(rep: &mut Report, cfg: &Cfg) {
     let mut rng = cfg.rng("C19");
     let mut cpu = Cpu::new();
+    let mut scratch = Mem::new();
     let kinds = [Kind::I, Kind::J, Kind::K, Kind::L, Kind::M, Kind::N];
     // (area index or 8 = on-chip RAM, probe addresses)
     let probes: Vec<(u32, Vec<u32>)> = vec![
@@ -363,7 +364,14 @@ pub fn c19(rep: &mut Report, cfg: &Cfg) {
                         if !cfg.mine(work) {
                             continue;
                         }
-                        for _ in 0..fills {
+                        for fill in 0..fills {
+                            // the other register locations of the two I/O blocks (plain storage for this
+                            // emulator) hold zeros, ones or random bytes: the charge depends on the five
+                            // bus-controller registers only
+                            if fill % 2 == 1 || work % 7 == 0 {
+                                crate::mon::io_background(&mut cpu, &mut scratch, rng.next());
+                                rep.cell("io-background", &[1]);
+                            }
                             // random filling of all other areas' bits
                             let mut b = BusRegs { abwcr: rng.u8(), astcr: rng.u8(), wcrh: rng.u8(), wcrl: rng.u8(), drcra: (dras << 5) | (rng.u8() & 0x1f) };
                             b.abwcr = (b.abwcr & !(1 << a)) | (width8 << a);
